@@ -111,6 +111,9 @@ func (w *moduleService) stop(_ error) error {
 
 		err = services.StopAndAwaitTerminated(context.Background(), w.service)
 	} else {
+		// The service is already stopping or stopped on its own. Wait until it is done, so that modules
+		// this one depends on are not stopped while its stopping function still runs.
+		_ = w.service.AwaitTerminated(context.Background())
 		err = w.service.FailureCase()
 	}
 
